@@ -90,6 +90,9 @@ def _gen_cfg(rng, prop):
         # is still missing (the handles hold memoised listings of the store's fan-out directories)
         cfg["second_round"] = rng.random() < 0.4
         cfg["req_as_iter"] = rng.random() < 0.25  # the request is any Iterable: here a one-shot iterator
+        # objects already in a local-class destination lack the read-only mark (placed, not yet protected):
+        # its existence query re-hashes them; they are there all the same (the empty object included)
+        cfg["dest_unprotected"] = rng.random() < 0.3
         cfg["ext_seed"] = rng.randrange(10**6)
     return cfg
 
@@ -115,6 +118,8 @@ def generate(prop, rng):
     if prop == "C12":
         return _gen_c12(rng)
     pool = gen.content_pool(rng, n=rng.randint(3, 7))
+    if prop == "C11" and b"" not in pool and rng.random() < 0.4:
+        pool[rng.randrange(len(pool))] = b""  # the empty file is an object like any other
     trees = _gen_trees(rng, len(pool))
     cfg = _gen_cfg(rng, prop)
     cfg["_prop"] = prop
@@ -386,7 +391,8 @@ class Run:
             self.w.raw_add("src", cfg["src_kind"], oid, data, mode=0o644 if cfg.get("unprotected") else 0o444)
         for lab in sc["dest"]:
             oid = m.oid[lab]
-            self.w.raw_add(self.dname, dk, oid, m.bytes[oid], mode=0o644 if cfg.get("unprotected") else 0o444)
+            self.w.raw_add(self.dname, dk, oid, m.bytes[oid],
+                           mode=0o644 if (cfg.get("unprotected") or cfg.get("dest_unprotected")) else 0o444)
         self.index = None
         if cfg["use_index"] and not cfg.get("via_push"):
             from dvc_data.hashfile.db.index import ObjectDBIndex
